@@ -222,3 +222,20 @@ Proof.
   { unfold u32. rewrite (N.mod_small (1001 * _)) by lia. apply N.mod_small. lia. }
   rewrite E2, H3. reflexivity.
 Qed.
+
+(* ---- C14: the gate of is_valid_firmware ---- *)
+Theorem is_valid_firmware_iff m i d :
+  snd (is_valid_firmware m i d) = ROk tt <->
+  exists d1 h, load_header m i d = (d1, Some (Some h)) /\ Slots.hkind h = Slots.Firmware /\ Slots.hext h = Slots.EComplete /\
+               snd (crc_valid m i h d1) = ROk tt.
+Proof.
+  unfold is_valid_firmware. destruct (load_header m i d) as [d1 [[h|]|]] eqn:E; cbn [snd].
+  - destruct (Slots.hkind h) eqn:K.
+    + destruct (Slots.hext h) eqn:X; cbn [snd].
+      * split; [discriminate| intros (d1' & h' & Q & _ & Q2 & _); inversion Q; subst; congruence].
+      * split; [discriminate| intros (d1' & h' & Q & _ & Q2 & _); inversion Q; subst; congruence].
+      * split; [intros H; exists d1, h; repeat split; assumption| intros (d1' & h' & Q & _ & _ & Q3); inversion Q; subst; exact Q3].
+    + split; [discriminate| intros (d1' & h' & Q & Q1 & _); inversion Q; subst; congruence].
+  - split; [discriminate| intros (d1' & h' & Q & _); discriminate].
+  - split; [discriminate| intros (d1' & h' & Q & _); discriminate].
+Qed.
